@@ -133,9 +133,9 @@ def run(ctx):
                 got[x.conds[-1][1]] = x.value_str()
         CS = 'io_loop::connection_state::ConnectionState::'
         r.eq('result:ServerClosing', got.get(CS + 'ServerClosing(_)'),
-             'errors::ServerClosedConnectionSnafu::fail(errors::ServerClosedConnectionSnafu{code: $m0.ServerClosing.0.reply_code, message: $m0.ServerClosing.0.reply_text})', site)
+             'Err(errors::Error::ServerClosedConnection{code: $m0.ServerClosing.0.reply_code, message: $m0.ServerClosing.0.reply_text})', site)
         r.eq('result:ClientClosed', got.get(CS + 'ClientClosed'), 'Ok(())', site)
-        r.eq('result:ClientException', got.get(CS + 'ClientException'), 'errors::ClientExceptionSnafu::fail(errors::ClientExceptionSnafu)', site)
+        r.eq('result:ClientException', got.get(CS + 'ClientException'), 'Err(errors::Error::ClientException)', site)
         # has_data_to_write() is read through wherever it is used (the rows above name the buffer itself); nothing to anchor here
 
     with ctx.rule('R08.7', "Connection::close reports the I/O thread's result (the server's close) before its own", floor=4) as r:
